@@ -152,6 +152,15 @@ def run(ctx):
             do(ctx, 'rot_dense', [be, g, mask, l, lay])
         ctx.res.count('layout_' + lay)
         ctx.res.count('N%d_masked%d' % (N, mask is not None))
+    # LARGE registers: byte, word and cache-line boundaries of every packed or vectorised representation (8, 9, 16, 17, 33, 64, 65 qubits); model correspondence only
+    for N in gen.BIG:
+        for be in backends:
+            n = rng.choice([N, rng.randint(1, N)])
+            mask = None if n == N else gen.rmask(rng, N, n)[0]
+            do(ctx, 'rot_corr', [be, gen.rpauli(rng, n, herm=True, nonzero=True), mask, gen.rplist(rng, N, 4)], nontrivial=('big', be, N))
+            g = gen.rpauli(rng, N, herm=True, nonzero=True)
+            do(ctx, 'map_corr', [be, g], nontrivial=('bigm', be, N))
+            do(ctx, 'map_acts', [be, g, gen.rplist(rng, N, 3)], nontrivial=('bigma', be, N))
     for _ in range(int(120 * B)):
         N = rng.randint(1, 5)
         gms = []
